@@ -145,7 +145,7 @@ var live atomic.Int64
 // recorded, so the reader of that channel would otherwise race with the record. Gives up
 // after a real-time bound (goroutines that legitimately live on) and says so.
 func TakePanicsQuiesced() []PanicRecord {
-	deadline := time.Now().Add(3 * time.Second)
+	deadline := time.Now().Add(time.Second)
 	for live.Load() > 0 {
 		if time.Now().After(deadline) {
 			QuiesceTimeouts.Add(1)
